@@ -51,7 +51,15 @@ ASSUMPTIONS = {
                    'is re-measured exactly (squared, rational) by the oracle on every returned triangle'],
 }
 THEOREMS = {
- 'C01': ['C01_ntriangles_partial', 'C01_vertices_from_loop', 'C01_ntriangles_eq_refuted', 'C01_orientation_refuted'],
+ 'C01': ['C01_ntriangles_partial', 'C01_vertices_from_loop', 'C01_ntriangles_eq_refuted', 'C01_orientation_refuted',
+         # geometric half (Properties/C01_tiling.v)
+         'C01_def_sanitize_unchanged', 'C01_def_stable_run', 'C01_def_outline_of', 'C01_def_projections',
+         'C01_trace_erasure', 'C01_trace_exists', 'C01_ear_decomposition', 'C01_clip_run_general', 'C01_clip_run_unchanged', 'C01_identities_general', 'C01_ntriangles_stable', 'C01_ear_decomp2_to_theory',
+         'C01_triangle_normals', 'C01_orient_is_normal_component', 'C01_area_is_newell', 'C01_frame_coordinates', 'C01_triangles_in_plane',
+         'C01_area_identity', 'C01_area_identity_3d', 'C01_winding_identity', 'C01_winding_index',
+         'C01_tiling_count', 'C01_tiling_outside', 'C01_tiling_no_overlap', 'C01_tiling_cover', 'C01_tile_exactly',
+         'C01_area_sum', 'C01_area_positive', 'C01_positive_normals_suffice', 'C01_tiling_count_via_theory',
+         'C01_negative_ear_breaks_count'],
  'C08': ['C08_initial_invariants', 'C08_wf_history', 'C08_counter_push', 'C08_counter_invalidate_live', 'C08_counter_mark_as_neighbours',
          'C08_counter_split_triangle', 'C08_counter_flip_diagonal', 'C08_counter_restore_delaunay', 'C08_mark_reciprocal',
          'C08_split_edge_half_update_refuted', 'C08_split_edge_w4_now_atomic'],
